@@ -117,6 +117,51 @@ func Led(lead string, sec int64, seq int, ses, pid, success string) Group {
 	return Group{Name: lead + "+SYSCALL", Seq: seq, Sec: sec, Session: ses, PID: pid, Result: success, Success: success == "yes", Kind: lead, Recs: recs}
 }
 
+// Aux returns a compound event that contains one of the auxiliary record types the kernel adds for particular
+// system calls - SOCKADDR (connect/bind/accept: the peer address becomes the event's object), SOCKETCALL, FD_PAIR
+// (pipe), MMAP, CAPSET, BPRM_FCAPS (exec of a file with capabilities).
+func Aux(kind string, sec int64, seq int, ses, pid, success string) Group {
+	exit := "0"
+	if success != "yes" {
+		exit = "-111"
+	}
+	sys := func(no, comm string) Rec {
+		return Rec{Type: "SYSCALL", Line: hdr("SYSCALL", sec, seq) + fmt.Sprintf(
+			"arch=c000003e syscall=%s success=%s exit=%s a0=3 a1=7ffc0a0 a2=10 a3=0 items=0 ppid=100 pid=%s auid=9999 uid=9999 gid=9999 euid=9999 suid=9999 fsuid=9999 egid=9999 sgid=9999 fsgid=9999 tty=pts0 ses=%s comm=\"%s\" exe=\"/usr/bin/%s\" subj=unconfined key=(null)",
+			no, success, exit, pid, ses, comm, comm)}
+	}
+	var recs []Rec
+	switch kind {
+	case "SOCKADDR": // connect(2) to 10.1.2.3:443
+		recs = append(recs, sys("42", "curl"), Rec{Type: "SOCKADDR", Line: hdr("SOCKADDR", sec, seq) + "saddr=020001BB0A0102030000000000000000"})
+	case "SOCKADDR6": // bind(2) to [::1]:8080
+		recs = append(recs, sys("49", "nc"), Rec{Type: "SOCKADDR", Line: hdr("SOCKADDR", sec, seq) + "saddr=0A00" + "1F90" + "00000000" + "00000000000000000000000000000001" + "00000000"})
+	case "SOCKADDR-unix": // connect(2) to /run/x.sock
+		recs = append(recs, sys("42", "logger"), Rec{Type: "SOCKADDR", Line: hdr("SOCKADDR", sec, seq) + "saddr=01002F72756E2F782E736F636B00"})
+	case "SOCKETCALL":
+		recs = append(recs, sys("102", "wget"), Rec{Type: "SOCKETCALL", Line: hdr("SOCKETCALL", sec, seq) + "nargs=3 a0=3 a1=ffd0a0 a2=10"},
+			Rec{Type: "SOCKADDR", Line: hdr("SOCKADDR", sec, seq) + "saddr=02000035080808080000000000000000"})
+	case "FD_PAIR":
+		recs = append(recs, sys("293", "sh"), Rec{Type: "FD_PAIR", Line: hdr("FD_PAIR", sec, seq) + "fd0=3 fd1=4"})
+	case "MMAP":
+		recs = append(recs, sys("9", "ld"), Rec{Type: "MMAP", Line: hdr("MMAP", sec, seq) + "fd=3 flags=0x2"})
+	case "CAPSET":
+		recs = append(recs, sys("126", "capsh"), Rec{Type: "CAPSET", Line: hdr("CAPSET", sec, seq) + fmt.Sprintf("pid=%s cap_pi=0000000000000000 cap_pp=0000000000000400 cap_pe=0000000000000400 cap_pa=0", pid)})
+	case "BPRM_FCAPS":
+		recs = append(recs, sys("59", "ping"), Rec{Type: "BPRM_FCAPS", Line: hdr("BPRM_FCAPS", sec, seq) + "fver=2 fp=0000000000002000 fi=0 fe=1 old_pp=0 old_pi=0 old_pe=0 old_pa=0 pp=0000000000002000 pi=0 pe=0000000000002000 pa=0 frootid=0"},
+			Rec{Type: "EXECVE", Line: hdr("EXECVE", sec, seq) + `argc=2 a0="ping" a1="10.0.0.1"`})
+	}
+	recs = append(recs, Rec{Type: "PROCTITLE", Line: hdr("PROCTITLE", sec, seq) + "proctitle=6375726C"})
+	g := Group{Name: "SYSCALL+" + kind, Seq: seq, Sec: sec, Session: ses, PID: pid, Result: success, Success: success == "yes", Kind: "SYSCALL", Recs: recs}
+	if kind == "BPRM_FCAPS" {
+		g.Args = []string{"ping", "10.0.0.1"}
+	}
+	return g
+}
+
+// AuxKinds lists the auxiliary-record groups.
+var AuxKinds = []string{"SOCKADDR", "SOCKADDR6", "SOCKADDR-unix", "SOCKETCALL", "FD_PAIR", "MMAP", "CAPSET", "BPRM_FCAPS"}
+
 var SimpleTypes = []string{"LOGIN", "USER_START", "USER_END", "CRED_ACQ", "CRED_DISP", "USER_ACCT", "USER_AUTH", "USER_CMD", "USER_LOGIN", "CRED_REFR"}
 
 // Groups enumerates the full product of the generator's parameters.
@@ -147,6 +192,11 @@ func Groups(thorough bool) []Group {
 		for _, lead := range []string{"AVC", "CONFIG_CHANGE"} {
 			for _, succ := range []string{"yes", "no"} {
 				out = append(out, Led(lead, 1700000000+int64(seq%50), next(), ses, "4243", succ))
+			}
+		}
+		for _, kind := range AuxKinds {
+			for _, succ := range []string{"yes", "no"} {
+				out = append(out, Aux(kind, 1700000000+int64(seq%50), next(), ses, "4243", succ))
 			}
 		}
 		for _, succ := range []string{"yes", "no"} {
